@@ -369,6 +369,7 @@ func runG(t *testing.T, ch *vs.Choices, prop, tier string, render bool) *vs.RunO
 			}
 			q := cloneProg(p)
 			q.Tasks[ps.t].Cmds[ps.c].Fail = code
+			vs.Tick()
 			o := runGOne(t, ch, q, prop, render)
 			o.Hit("fault_enumeration:failing_position")
 			agg = mergeRunOut(agg, o)
@@ -393,6 +394,7 @@ func runG(t *testing.T, ch *vs.Choices, prop, tier string, render bool) *vs.RunO
 		for k := 1; k <= maxK; k++ {
 			q := cloneProg(p)
 			q.CancelAtEvent = k
+			vs.Tick()
 			o := runGOne(t, ch, q, prop, render)
 			fired := o.Reach["fault:caller_cancel"] > 0
 			if fired {
